@@ -15,6 +15,9 @@ MCRoutes == {<<>>, <<<<"B", "B">>>>, <<<<"R", "B">>>>, <<<<"R", "B">>, <<"B", "B
 MCRoutesSmall == {<<<<"B", "B">>>>, <<<<"R", "B">>>>, <<<<"R", "R">>, <<"B", "B">>>>}
 MCRoutesLive == {<<<<"R", "B">>>>, <<<<"R", "R">>, <<"B", "B">>>>}
 
+ConcFaults == {"lose", "corrupt", "cifail"}
+MCRoutesConc == {<<<<"B", "B">>>>, <<<<"R", "B">>>>}
+
 CallDone(k) == k \in CallIds /\ calls[k].pc = "done"
 Terminates == \A k \in 1..8 : (k \in CallIds) ~> CallDone(k)
 ============================================================================
